@@ -45,7 +45,7 @@ def treeSplit (t : TreeImg) (q i : Nat) (L R : List Nat) (p rp np : Nat) : TreeI
 
 /-- the scratch tree after one insertion at the end of the chain (with or without a split) -/
 theorem sinkOne_tree (cfg : Cfg) (ps : PS) (t : TreeImg) (q : Nat) (Xi : List (List Nat)) (last : List Nat) (pids : List Nat)
-    (hl : t.leaves = mkLeaves (Xi ++ [last]) pids) (hs : last.Pairwise (· ≤ ·)) (hq : ∀ x ∈ last, x ≤ q) :
+    (hl : t.leaves = mkLeaves (Xi ++ [last]) pids) (hs : last.Pairwise (· ≤ ·)) (hq : ∀ x ∈ last, x ≤ q) (hnq : q ∉ last) :
     ∃ p : Nat,
     (last.length < cfg.leafCap → (sinkOneA cfg ps t q).2.2 = treeApp t q Xi.length (last ++ [q]) p) ∧
     (¬ last.length < cfg.leafCap →
@@ -57,20 +57,21 @@ theorem sinkOne_tree (cfg : Cfg) (ps : PS) (t : TreeImg) (q : Nat) (Xi : List (L
     rw [← List.getD_eq_getElem?_getD, hl]; exact hp
   have hes : insertSorted q (last.map some) = (last ++ [q]).map some := by
     rw [insertSorted_map, insNat_ge q last hs hq]
+  have hkeep := filter_ne_some q last hnq
   refine ⟨p, ?_, ?_⟩
   · intro hc
-    simp [sinkOneA, hlen, hleaf, hes, hc, treeApp]
+    simp [sinkOneA, hlen, hleaf, hkeep, hes, hc, treeApp]
   · intro hc
     cases hin : t.inode with
     | none =>
       refine ⟨(allocA (allocA ps).2.1).2.2, (allocA (allocA (allocA ps).2.1).2.1).2.2, ?_⟩
-      simp only [sinkOneA, hlen, List.getD_eq_getElem?_getD, hleaf, hes, hc, hin, List.length_map, if_false, List.length_append, List.length_singleton, treeSplit]
+      simp only [sinkOneA, hlen, List.getD_eq_getElem?_getD, hleaf, hkeep, Nat.lt_irrefl, List.append_nil, hes, hc, hin, List.length_map, if_false, List.length_append, List.length_singleton, treeSplit]
       simp only [← List.map_take, ← List.map_drop, Option.getD_none, List.nil_append, Option.isSome_none, Bool.false_eq_true, if_false]
       congr 2
       cases (last ++ [q]).drop ((last.length + 1) / 2) <;> simp
     | some seps =>
       refine ⟨(allocA (allocA ps).2.1).2.2, 0, ?_⟩
-      simp only [sinkOneA, hlen, List.getD_eq_getElem?_getD, hleaf, hes, hc, hin, List.length_map, if_false, List.length_append, List.length_singleton, treeSplit]
+      simp only [sinkOneA, hlen, List.getD_eq_getElem?_getD, hleaf, hkeep, Nat.lt_irrefl, List.append_nil, hes, hc, hin, List.length_map, if_false, List.length_append, List.length_singleton, treeSplit]
       simp only [← List.map_take, ← List.map_drop, Option.getD_some, Option.isSome_some, if_true]
       congr 3
       cases (last ++ [q]).drop ((last.length + 1) / 2) <;> simp
@@ -82,7 +83,7 @@ namespace Nervus.Crash
 /-- **one insertion at the end of a chain keeps the chain shape** (the key is not below any key
     already there) -/
 theorem sinkOne_shape (cfg : Cfg) (hcap : 1 ≤ cfg.leafCap) (ps : PS) (t : TreeImg) (q : Nat) (Xi : List (List Nat))
-    (last : List Nat) (top : Bool) (h : TreeShape t (Xi ++ [last]) top) (hq : ∀ x ∈ (Xi ++ [last]).flatten, x ≤ q) :
+    (last : List Nat) (top : Bool) (h : TreeShape t (Xi ++ [last]) top) (hq : ∀ x ∈ (Xi ++ [last]).flatten, x ≤ q) (hnq : q ∉ last) :
     ∃ Xi' last' top', TreeShape (sinkOneA cfg ps t q).2.2 (Xi' ++ [last']) top' ∧
       (Xi' ++ [last']).flatten = (Xi ++ [last]).flatten ++ [q] ∧
       (sinkOneA cfg ps t q).2.2.blobs = q :: t.blobs ∧ (sinkOneA cfg ps t q).2.2.key = t.key := by
@@ -101,7 +102,7 @@ theorem sinkOne_shape (cfg : Cfg) (hcap : 1 ≤ cfg.leafCap) (ps : PS) (t : Tree
     cases Xi with
     | nil => exact absurd rfl hx
     | cons x Xs => simp
-  obtain ⟨p, h1, h2⟩ := sinkOne_tree cfg ps t q Xi last pids hl hslast hqlast
+  obtain ⟨p, h1, h2⟩ := sinkOne_tree cfg ps t q Xi last pids hl hslast hqlast hnq
   by_cases hc : last.length < cfg.leafCap
   · rw [h1 hc]
     refine ⟨Xi, last ++ [q], top, ?_, by simp, rfl, rfl⟩
@@ -202,7 +203,7 @@ namespace Nervus.Crash
 
 /-- the actions of one insertion, in the three cases of `BTree::insert` -/
 theorem sinkOne_eq (cfg : Cfg) (ps : PS) (t : TreeImg) (q : Nat) (Xi : List (List Nat)) (last : List Nat) (pids : List Nat)
-    (hl : t.leaves = mkLeaves (Xi ++ [last]) pids) (hs : last.Pairwise (· ≤ ·)) (hq : ∀ x ∈ last, x ≤ q) :
+    (hl : t.leaves = mkLeaves (Xi ++ [last]) pids) (hs : last.Pairwise (· ≤ ·)) (hq : ∀ x ∈ last, x ≤ q) (hnq : q ∉ last) :
     ∃ p : Nat,
     (last.length < cfg.leafCap →
       sinkOneA cfg ps t q =
@@ -236,17 +237,18 @@ theorem sinkOne_eq (cfg : Cfg) (ps : PS) (t : TreeImg) (q : Nat) (Xi : List (Lis
     rw [← List.getD_eq_getElem?_getD, hl]; exact hp
   have hes : insertSorted q (last.map some) = (last ++ [q]).map some := by
     rw [insertSorted_map, insNat_ge q last hs hq]
+  have hkeep := filter_ne_some q last hnq
   have hsep : ∀ l : List Nat, ((l.map some).headD none).getD 0 = l.headD 0 := by
     intro l; cases l <;> simp
   refine ⟨p, ?_, ?_, ?_⟩
   · intro hc
-    simp [sinkOneA, hlen, hleaf, hes, hc, treeApp]
+    simp [sinkOneA, hlen, hleaf, hkeep, hes, hc, treeApp]
   · intro hc hin
-    simp only [sinkOneA, hlen, List.getD_eq_getElem?_getD, hleaf, hes, hc, hin, List.length_map, if_false, List.length_append,
+    simp only [sinkOneA, hlen, List.getD_eq_getElem?_getD, hleaf, hkeep, Nat.lt_irrefl, List.append_nil, hes, hc, hin, List.length_map, if_false, List.length_append,
       List.length_singleton, treeSplit]
     simp only [← List.map_take, ← List.map_drop, hsep, Option.getD_none, List.nil_append, Option.isSome_none, Bool.false_eq_true, if_false]
   · intro hc seps hin
-    simp only [sinkOneA, hlen, List.getD_eq_getElem?_getD, hleaf, hes, hc, hin, List.length_map, if_false, List.length_append,
+    simp only [sinkOneA, hlen, List.getD_eq_getElem?_getD, hleaf, hkeep, Nat.lt_irrefl, List.append_nil, hes, hc, hin, List.length_map, if_false, List.length_append,
       List.length_singleton, treeSplit]
     simp only [← List.map_take, ← List.map_drop, hsep, Option.getD_some, Option.isSome_some, if_true]
 
@@ -295,11 +297,11 @@ variable {p0 : PImg} {live lo : Nat} {allowed covered : List Nat} {lv : LiveP}
     judgement and the volatile tree -/
 theorem pblk_sinkOneNew (cfg : Cfg) (nd : Nat) (ps : PS) (t : TreeImg) (q : Nat) (Xi : List (List Nat)) (last : List Nat) (pids : List Nat)
     (hsk : SameKey p0.hdr ps.pm) (hnp : min ps.bm ps.pm.nextPage = nd) (hk : t.key ≠ live)
-    (hl : t.leaves = mkLeaves (Xi ++ [last]) pids) (hs : last.Pairwise (· ≤ ·)) (hq : ∀ x ∈ last, x ≤ q) :
+    (hl : t.leaves = mkLeaves (Xi ++ [last]) pids) (hs : last.Pairwise (· ≤ ·)) (hq : ∀ x ∈ last, x ≤ q) (hnq : q ∉ last) :
     ∃ nd' effs, PBlk p0 live allowed covered lv lo nd ps (sinkOneA cfg ps t q).1 effs nd' (sinkOneA cfg ps t q).2.1 ∧
       (∀ e ∈ effs, TreeE e) ∧
       ∀ p : PImg, treeFind p t.key = some t → treeFind (applyEffs effs p) t.key = some (sinkOneA cfg ps t q).2.2 := by
-  obtain ⟨pl, hA, hB, hC⟩ := sinkOne_eq cfg ps t q Xi last pids hl hs hq
+  obtain ⟨pl, hA, hB, hC⟩ := sinkOne_eq cfg ps t q Xi last pids hl hs hq hnq
   obtain ⟨ba, _, _⟩ := pblk_alloc_eq (p0 := p0) (live := live) (lo := lo) (allowed := allowed) (covered := covered) (lv := lv) ps hsk hnp
   have bb := pblk_write (p0 := p0) (live := live) (lo := lo) (allowed := allowed) (covered := covered) (lv := lv) ba.sk ba.np
     (.blob t.key q) (allocA ps).2.2 trivial
@@ -383,7 +385,7 @@ theorem sinkA_cons (cfg : Cfg) (ps : PS) (t : TreeImg) (q : Nat) (qs : List Nat)
 theorem pblk_sinkNew (cfg : Cfg) (hcap : 1 ≤ cfg.leafCap) :
     ∀ (qs : List Nat) (nd : Nat) (ps : PS) (t : TreeImg) (Xi : List (List Nat)) (last : List Nat) (tp : Bool),
       SameKey p0.hdr ps.pm → min ps.bm ps.pm.nextPage = nd → t.key ≠ live → TreeShape t (Xi ++ [last]) tp →
-      qs.Pairwise (· ≤ ·) → (∀ x ∈ (Xi ++ [last]).flatten, ∀ q ∈ qs, x ≤ q) →
+      qs.Pairwise (· < ·) → (∀ x ∈ (Xi ++ [last]).flatten, ∀ q ∈ qs, x < q) →
       ∃ nd' effs, PBlk p0 live allowed covered lv lo nd ps (sinkA cfg ps t qs).1 effs nd' (sinkA cfg ps t qs).2.1 ∧
         (∀ e ∈ effs, TreeE e) ∧
         (∀ p : PImg, treeFind p t.key = some t → treeFind (applyEffs effs p) t.key = some (sinkA cfg ps t qs).2.2) ∧
@@ -399,11 +401,12 @@ theorem pblk_sinkNew (cfg : Cfg) (hcap : 1 ≤ cfg.leafCap) :
     have hflat : (Xi ++ [last]).flatten = Xi.flatten ++ last := by simp
     have hslast : last.Pairwise (· ≤ ·) := by
       rw [hflat] at hsp; exact (List.pairwise_append.mp hsp).2.1
-    have hq1 : ∀ x ∈ (Xi ++ [last]).flatten, x ≤ q := fun x hx => hq x hx q (by simp)
+    have hq1 : ∀ x ∈ (Xi ++ [last]).flatten, x ≤ q := fun x hx => Nat.le_of_lt (hq x hx q (by simp))
     have hqlast : ∀ x ∈ last, x ≤ q := fun x hx => hq1 x (by rw [hflat]; exact List.mem_append_right _ hx)
+    have hnq : q ∉ last := fun hin => Nat.lt_irrefl q (hq q (by rw [hflat]; exact List.mem_append_right _ hin) q (by simp))
     obtain ⟨nd1, e1, b1, hTE1, hf1⟩ := pblk_sinkOneNew (p0 := p0) (live := live) (lo := lo) (allowed := allowed) (covered := covered) (lv := lv)
-      cfg nd ps t q Xi last pids hsk hnp hk hl hslast hqlast
-    obtain ⟨Xi1, last1, tp1, hsh1, hflat1, hbl1, hkey1⟩ := sinkOne_shape cfg hcap ps t q Xi last tp hsh hq1
+      cfg nd ps t q Xi last pids hsk hnp hk hl hslast hqlast hnq
+    obtain ⟨Xi1, last1, tp1, hsh1, hflat1, hbl1, hkey1⟩ := sinkOne_shape cfg hcap ps t q Xi last tp hsh hq1 hnq
     have hpw' := List.pairwise_cons.mp hpw
     obtain ⟨nd2, e2, b2, hTE2, hf2, Xi2, last2, tp2, hsh2, hflat2, hbl2, hkey2⟩ :=
       pblk_sinkNew cfg hcap qs nd1 (sinkOneA cfg ps t q).2.1 (sinkOneA cfg ps t q).2.2 Xi1 last1 tp1 b1.sk b1.np (by rw [hkey1]; exact hk) hsh1 hpw'.2
@@ -454,7 +457,7 @@ theorem pblk_sinkLive (cfg : Cfg) :
       SameKey p0.hdr ps.pm → min ps.bm ps.pm.nextPage = nd → TreeShape t (lv.Xi ++ [last]) lv.top →
       (lv.Xi ≠ [] → last.headD 0 = lv.hd) → (∀ q ∈ (lv.Xi ++ [last]).flatten, q ∈ allowed) →
       (∀ q ∈ covered, q ∈ (lv.Xi ++ [last]).flatten) → (∀ q ∈ qs, q ∈ allowed) →
-      last.length + qs.length ≤ cfg.leafCap → qs.Pairwise (· ≤ ·) → (∀ x ∈ (lv.Xi ++ [last]).flatten, ∀ q ∈ qs, x ≤ q) →
+      last.length + qs.length ≤ cfg.leafCap → qs.Pairwise (· < ·) → (∀ x ∈ (lv.Xi ++ [last]).flatten, ∀ q ∈ qs, x < q) →
       ∃ effs, PBlk p0 live allowed covered lv lo nd ps (sinkA cfg ps t qs).1 effs (nd + qs.length) (sinkA cfg ps t qs).2.1 ∧
         (∀ e ∈ effs, TreeE e) ∧
         (∀ p : PImg, treeFind p t.key = some t → treeFind (applyEffs effs p) t.key = some (sinkA cfg ps t qs).2.2) ∧
@@ -469,8 +472,9 @@ theorem pblk_sinkLive (cfg : Cfg) :
     have hflat : (lv.Xi ++ [last]).flatten = lv.Xi.flatten ++ last := by simp
     have hslast : last.Pairwise (· ≤ ·) := by
       rw [hflat] at hsp; exact (List.pairwise_append.mp hsp).2.1
-    have hq1 : ∀ x ∈ (lv.Xi ++ [last]).flatten, x ≤ q := fun x hx => hq x hx q (by simp)
+    have hq1 : ∀ x ∈ (lv.Xi ++ [last]).flatten, x ≤ q := fun x hx => Nat.le_of_lt (hq x hx q (by simp))
     have hqlast : ∀ x ∈ last, x ≤ q := fun x hx => hq1 x (by rw [hflat]; exact List.mem_append_right _ hx)
+    have hnq : q ∉ last := fun hin => Nat.lt_irrefl q (hq q (by rw [hflat]; exact List.mem_append_right _ hin) q (by simp))
     have hc : last.length < cfg.leafCap := by simp at hcap; omega
     have hflat1 : (lv.Xi ++ [last ++ [q]]).flatten = (lv.Xi ++ [last]).flatten ++ [q] := by simp
     have hsnew : SortedNat (lv.Xi ++ [last ++ [q]]).flatten := by
@@ -484,7 +488,7 @@ theorem pblk_sinkLive (cfg : Cfg) :
       | cons x Xs => simp
     have hhd1 : lv.Xi ≠ [] → last ++ [q] ≠ [] ∧ (last ++ [q]).headD 0 = last.headD 0 :=
       fun hx => ⟨by simp, headD_append_ne last [q] (hlastne hx)⟩
-    obtain ⟨pl, hA, _, _⟩ := sinkOne_eq cfg ps t q lv.Xi last pids hl hslast hqlast
+    obtain ⟨pl, hA, _, _⟩ := sinkOne_eq cfg ps t q lv.Xi last pids hl hslast hqlast hnq
     have hone := hA hc
     obtain ⟨ba, _, _⟩ := pblk_alloc_eq (p0 := p0) (live := live) (lo := lo) (allowed := allowed) (covered := covered) (lv := lv) ps hsk hnp
     have bb := pblk_write (p0 := p0) (live := live) (lo := lo) (allowed := allowed) (covered := covered) (lv := lv) ba.sk ba.np
